@@ -7,8 +7,8 @@ use nom::combinator::{map, opt, recognize};
 use nom::multi::{many0, separated_list0, separated_list1};
 use nom::sequence::{delimited, preceded, terminated, tuple};
 use nom::IResult;
-use xml_nom::model::QName;
-use xml_nom::{ncname, qname};
+use xml_nom::model::{PrefixedName, QName};
+use xml_nom::{helper, ncname, qname};
 
 // -----------------------------------------------------------------------------------------------
 
@@ -426,8 +426,28 @@ fn number(input: &str) -> IResult<&str, &str> {
 ///
 /// [\[35\] FunctionName](https://triple-underscore.github.io/XML/xpath10-ja.html#NT-FunctionName)
 fn function_name(input: &str) -> IResult<&str, QName> {
-    // TODO:
-    qname(input)
+    alt((
+        map(
+            map(
+                tuple((ncname, preceded(tag(":"), ncname))),
+                PrefixedName::from,
+            ),
+            QName::from,
+        ),
+        map(
+            helper::take_except(
+                helper::take_except(
+                    helper::take_except(
+                        helper::take_except(ncname, "comment"),
+                        "text",
+                    ),
+                    "processing-instruction",
+                ),
+                "node",
+            ),
+            QName::from,
+        ),
+    ))(input)
 }
 
 /// '$' QName
